@@ -123,22 +123,22 @@ ADDENDA = {
  "C19": ("eligibility of the returned node also judged from the history itself (drained and not registered again / query-only / last reported load >= 95 %), independent of the registry's bookkeeping; every route call bounded by one hour of the runtime's virtual clock (a call parked for good is a verdict in logical time, not a wall-clock watchdog)", "", None),
  "C20": ("", "Configurations include the degenerate ones: merge thresholds 0, 1 and usize::MAX, target sizes 0, 1 and usize::MAX, level limits 0 and 1. One case in three starts with a lease held by another compactor on an L0 group, given up after one or two cycles; every granted lease counts as a selected group (a chunk in two of them within one cycle is a violation).", None),
  "C06": ("extreme-timestamp lane in a worker process under RLIMIT_AS / RLIMIT_CPU",
-         "Also: batches whose timestamps lie within hours of i64::MAX / i64::MIN through the real ingester (catalog entry and stored rows exact, no resource blow-up); a sixth of the rounds re-send batches verbatim (byte-identical flushes must both be stored); thresholds 0 / 1, batches of a few thousand rows; buffer-model lane (WriteBuffer against a list model).",
+         "One round in twelve with requests and flushes of exactly 1024 / 4096 / 8192 / 16384 / 24576 rows and their neighbours. Also: batches whose timestamps lie within hours of i64::MAX / i64::MIN through the real ingester (catalog entry and stored rows exact, no resource blow-up); a sixth of the rounds re-send batches verbatim (byte-identical flushes must both be stored); thresholds 0 / 1, batches of a few thousand rows; buffer-model lane (WriteBuffer against a list model).",
          "Fault-free by premise; rows of one round lie within a few hours (a chunk spanning decades makes the hour-bucket index large by design - noted in DESIGN.md, not part of C06); thread interleavings are whatever the OS produces (unsystematic); wall-clock watchdogs never feed the verdict."),
- "C07": ("extreme-timestamp lane in a worker process under RLIMIT_AS / RLIMIT_CPU",
+ "C07": ("extreme-timestamp lane in a worker process under RLIMIT_AS / RLIMIT_CPU; every other history on a catalog object where every 2nd / 3rd / 5th conditional update loses its race and is repeated",
          "Also: narrow chunk intervals within hours of i64::MAX / i64::MIN on both backends (register, look up, delete) against the interval model.",
          "InMemory store trusted; the extreme-timestamp cases run under 3 GiB address space / 90 s CPU, exceeding either is the verdict 'resource exhaustion'."),
  "C09": ("0-1 storage faults (before / after effect) and contention bursts in the scenario plan",
          "Also: scenarios with a failed / lost-response request or a burst of lost catalog races; the safety rules are judged in every history, 'persisted deletions are carried out after a restart' only in fault-free ones; a never-referenced file may be deleted once the grace period has passed since its upload. Settings include 'keep for ever' retention (200000 days, u32::MAX) and 'never collect' grace periods (2^50 s, u64::MAX s). Pin-model lane: the real ChunkPinRegistry under overlapping queries and delete claims against reference counts (a pin may not vanish while its guard is alive).", None),
  "C10": ("one failed read of the query node in a third of the simulated cases", "Under a failed read an error may be a query's answer, another query's chunk set may not.", None),
  "C11": ("18 interfaces: also the POST forms of the Prometheus endpoints, query_range, labels, label values (hostile label name in the path), series POST and raw SQL over a loopback WebSocket", "Hostile text is also placed in grouping lists and label names; inner queries and SET statements that never mention the metrics table (catalog lookups, constants).", None),
- "C12": ("", "SQL lane also spells predicates as x NOT BETWEEN a AND b, x NOT IN (..), !=, literal on the left, one-element IN.", None),
+ "C12": ("", "SQL lane also spells predicates as x NOT BETWEEN a AND b, x NOT IN (..), !=, literal on the left, one-element IN; statements reading the table twice (UNION ALL, joined CTEs) and derived tables re-using a stored column's name; BETWEEN / IN operands of mixed numeric literal types, chunks holding only integers beyond 2^53 with near-tie predicates.", None),
  "C13": ("router-model lane: sequential histories of routing updates in every shard state, invalidations and TTL expiry (interposed monotonic clock) against a three-line model",
          "Router: an update is taken unless an entry with a larger generation is cached, whatever that entry's state or age; a lookup never returns a generation below the newest one the router was told and has not invalidated.", None),
  "C14": ("contention bursts of 5 and of 2 lost compare-and-swap races starting at every conditional PUT of the fault-free split (retry exhaustion as an interruption class)",
          "Also: every third dataset holds a chunk of more than 8192 rows (several back-fill copies per side).", None),
- "C15": ("refused split-state lookups for a fifth of the writes (accepted => copied)", "Read lane on both catalog backends, every other scenario with a second shard splitting at the same time.", None),
- "C16": ("", "Also get_ranges, reads of a key before the writer reaches it (read again once it exists), twin objects (same file name in another directory, other content), tier sizes 0 and 1; every other configuration on a backing store whose downloads arrive in pieces and are now and then cut in the middle of the body.", None),
+ "C15": ("refused split-state lookups for a fifth of the writes (accepted => copied)", "Read lane on both catalog backends, every other scenario with a second shard splitting at the same time; requests sent again verbatim during the split, the new shards judged as a whole at the end.", None),
+ "C16": ("", "Also get_ranges, reads of a key before the writer reaches it (read again once it exists), twin objects (same file name in another directory, other content), tier sizes 0 and 1; every other configuration on a backing store whose downloads arrive in pieces and are now and then cut in the middle of the body; get_opts with holding preconditions combined with bounded / offset / suffix ranges.", None),
  "C17": ("", "Remote-write label order as senders produce it (name first / sorted incl. upper-case names / shuffled); OTLP typed attribute values, point attribute overriding a resource attribute, two scopes per resource; requests with no series or a few hundred, series with ~100 samples.", None),
  "C18": ("lane 4: the same subscriptions over a loopback WebSocket to /api/v1/stream, the observed window delimited by sentinel batches (no timing in the verdict); lane 5: topic-filtered delivery end to end with the batch metadata derived by the real ingester",
          "Also over the WebSocket transport, and topic filters (tenant / shard / metric sets, And / Or) against the metadata the ingester derives for batches with several metric names. Every other end-to-end subscription runs against a catalog that refuses writes during some flushes (the rows of a failed flush go out with the next one and must arrive once).",
